@@ -162,16 +162,20 @@ struct String {
     }
 
     inline bool operator==(const Char_T *str) const noexcept {
-        SizeT offset{0};
+        const SizeT length = Length();
+        SizeT       offset{0};
 
         if (str != nullptr) {
-            while ((*str != Char_T{0}) && (*str == First()[offset])) {
+            // An empty String may have no storage at all: never read past Length().
+            while ((offset < length) && (*str != Char_T{0}) && (*str == First()[offset])) {
                 ++str;
                 ++offset;
             }
+
+            return ((*str == Char_T{0}) && (length == offset));
         }
 
-        return ((*str == Char_T{0}) && (Length() == offset));
+        return (length == 0);
     }
 
     inline bool operator!=(const String &string) const noexcept {
